@@ -21,7 +21,7 @@ func TestVerifC17Gen(t *testing.T) {
 	p := vrep.Env()
 	res := vrep.New("C17", p)
 	defer res.Guard()
-	res.Rule = "generator leg: (c) every ordered list of 1-3 records over {cmd/go, cmd/compile, gopls} x minimum version {none, low, high, newer than every known release} x depth {0,5} through the real generate with a fixed set of known versions: each counter expression listed once under its program, as a stack iff it has a depth, versions = every known version not older than the smallest minimum of the program's records (Go-version order for toolchain programs, semver order otherwise; padded extras allowed); (d) padVersions on every subset (size <= 3, thorough 4) of a 12-version pool (two with numeric components beyond 64 resp. 63 bits), and those lists with one version named twice, x 243 padding settings: superset of the input, sorted, duplicate-free, no panic"
+	res.Rule = "generator leg: (c) every ordered list of 1-3 records over {cmd/go, cmd/compile, gopls} x minimum version {none, low, high, newer than every known release} x depth {0,5} x {own counter expression per record, one expression shared by all records} through the real generate with a fixed set of known versions: each counter expression listed once under its program, as a stack iff it has a depth, versions = every known version not older than the smallest minimum of the program's records (Go-version order for toolchain programs, semver order otherwise; padded extras allowed); (d) padVersions on every subset (size <= 3, thorough 4) of a 12-version pool (two with numeric components beyond 64 resp. 63 bits), and those lists with one version named twice, x 243 padding settings: superset of the input, sorted, duplicate-free, no panic"
 	// The known versions are installed afresh before every generate call (generate filters the list it is
 	// handed in place). They include early releases (v0.0.1, v0.1.0, v1.0.0): version padding counts up from a
 	// release, so it can only be told apart from a listing of old real releases if such releases exist.
@@ -71,96 +71,113 @@ func TestVerifC17Gen(t *testing.T) {
 		}
 	}
 	idx := 0
-	for _, list := range lists {
-		idx++
-		if !p.Mine(idx) {
-			continue
-		}
-		var cfgs []chartconfig.ChartConfig
-		for i, s := range list {
-			c := chartconfig.ChartConfig{Title: fmt.Sprintf("t%d", i), Issue: []string{"https://go.dev/issue/1"}, Type: "partition", Program: s.prog, Counter: fmt.Sprintf("ctr%d:{a,b}", i), Version: s.min, Depth: s.depth}
-			if s.depth > 0 {
-				c.Type = "stack"
-				c.Counter = fmt.Sprintf("stk%d", i)
+	// every list twice: with a counter expression of its own per record, and with all records drawing on the
+	// same expression (several charts, and several programs, over one counter name)
+	for _, shared := range []bool{false, true} {
+		for _, list := range lists {
+			idx++
+			if !p.Mine(idx) {
+				continue
 			}
-			if !strings.HasPrefix(s.prog, "cmd/") {
-				c.Module = s.prog
-			}
-			cfgs = append(cfgs, c)
-		}
-		desc := fmt.Sprint(list)
-		res.Evaluations++
-		install()
-		ucfg, err := generate(cfgs, regularPaddings)
-		if err != nil {
-			res.Violate("generate-failed", fmt.Sprintf("generate: %v [%s]", err, desc), nil)
-			continue
-		}
-		fail := func(sig, format string, args ...any) {
-			res.Violate(sig, fmt.Sprintf(format, args...)+" [records "+desc+"]", map[string]any{"records": desc})
-		}
-		byProg := map[string][]int{}
-		for i, s := range list {
-			byProg[s.prog] = append(byProg[s.prog], i)
-		}
-		if len(ucfg.Programs) != len(byProg) {
-			fail("program-count", "%d programs generated for %d distinct programs", len(ucfg.Programs), len(byProg))
-		}
-		for _, pc := range ucfg.Programs {
-			idxs := byProg[pc.Name]
-			var wantC, wantS []string
-			smallest, none := "", false
-			for _, i := range idxs {
-				if list[i].depth > 0 {
-					wantS = append(wantS, cfgs[i].Counter)
-				} else {
-					wantC = append(wantC, cfgs[i].Counter)
+			var cfgs []chartconfig.ChartConfig
+			for i, s := range list {
+				c := chartconfig.ChartConfig{Title: fmt.Sprintf("t%d", i), Issue: []string{"https://go.dev/issue/1"}, Type: "partition", Program: s.prog, Counter: fmt.Sprintf("ctr%d:{a,b}", i), Version: s.min, Depth: s.depth}
+				if s.depth > 0 {
+					c.Type = "stack"
+					c.Counter = fmt.Sprintf("stk%d", i)
 				}
-				m := list[i].min
-				switch {
-				case m == "":
-					none = true
-				case smallest == "":
-					smallest = m
-				case strings.HasPrefix(pc.Name, "cmd/") && version.Compare(m, smallest) < 0:
-					smallest = m
-				case !strings.HasPrefix(pc.Name, "cmd/") && semver.Compare(m, smallest) < 0:
-					smallest = m
+				if !strings.HasPrefix(s.prog, "cmd/") {
+					c.Module = s.prog
+				}
+				if shared {
+					c.Counter = "ctrS:{a,b}"
+					if s.depth > 0 {
+						c.Counter = "stkS"
+					}
+				}
+				cfgs = append(cfgs, c)
+			}
+			desc := fmt.Sprint(list)
+			if shared {
+				desc += " shared-expression"
+			}
+			res.Evaluations++
+			install()
+			ucfg, err := generate(cfgs, regularPaddings)
+			if err != nil {
+				res.Violate("generate-failed", fmt.Sprintf("generate: %v [%s]", err, desc), nil)
+				continue
+			}
+			fail := func(sig, format string, args ...any) {
+				res.Violate(sig, fmt.Sprintf(format, args...)+" [records "+desc+"]", map[string]any{"records": desc})
+			}
+			byProg := map[string][]int{}
+			for i, s := range list {
+				byProg[s.prog] = append(byProg[s.prog], i)
+			}
+			if len(ucfg.Programs) != len(byProg) {
+				fail("program-count", "%d programs generated for %d distinct programs", len(ucfg.Programs), len(byProg))
+			}
+			for _, pc := range ucfg.Programs {
+				idxs := byProg[pc.Name]
+				var wantC, wantS []string
+				smallest, none := "", false
+				for _, i := range idxs {
+					if list[i].depth > 0 {
+						wantS = append(wantS, cfgs[i].Counter)
+					} else {
+						wantC = append(wantC, cfgs[i].Counter)
+					}
+					m := list[i].min
+					switch {
+					case m == "":
+						none = true
+					case smallest == "":
+						smallest = m
+					case strings.HasPrefix(pc.Name, "cmd/") && version.Compare(m, smallest) < 0:
+						smallest = m
+					case !strings.HasPrefix(pc.Name, "cmd/") && semver.Compare(m, smallest) < 0:
+						smallest = m
+					}
+				}
+				if none {
+					smallest = ""
+				}
+				var gotC, gotS []string
+				for _, c := range pc.Counters {
+					gotC = append(gotC, c.Name)
+				}
+				for _, c := range pc.Stacks {
+					gotS = append(gotS, c.Name)
+				}
+				if shared {
+					// two charts of one program over the same expression: listed once or once per chart
+					gotC, wantC, gotS, wantS = zzvUniq(gotC), zzvUniq(wantC), zzvUniq(gotS), zzvUniq(wantS)
+				}
+				if fmt.Sprint(gotC) != fmt.Sprint(wantC) || fmt.Sprint(gotS) != fmt.Sprint(wantS) {
+					fail("counters-differ", "program %s: counters %v stacks %v, want %v / %v", pc.Name, gotC, gotS, wantC, wantS)
+				}
+				have := map[string]bool{}
+				for _, v := range pc.Versions {
+					have[v] = true
+				}
+				known := goplsKnown
+				older := func(v string) bool { return smallest != "" && semver.Compare(v, smallest) < 0 }
+				if strings.HasPrefix(pc.Name, "cmd/") {
+					known = goKnown
+					older = func(v string) bool { return smallest != "" && version.Compare(v, smallest) < 0 }
+				}
+				for _, v := range known {
+					if !older(v) && !have[v] {
+						fail("known-version-missing", "program %s: known version %s is not older than the smallest minimum %q but is not listed (versions %v)", pc.Name, v, smallest, pc.Versions)
+					}
+					if older(v) && have[v] {
+						fail("older-version-listed", "program %s: version %s is older than the smallest minimum %q but is listed", pc.Name, v, smallest)
+					}
 				}
 			}
-			if none {
-				smallest = ""
-			}
-			var gotC, gotS []string
-			for _, c := range pc.Counters {
-				gotC = append(gotC, c.Name)
-			}
-			for _, c := range pc.Stacks {
-				gotS = append(gotS, c.Name)
-			}
-			if fmt.Sprint(gotC) != fmt.Sprint(wantC) || fmt.Sprint(gotS) != fmt.Sprint(wantS) {
-				fail("counters-differ", "program %s: counters %v stacks %v, want %v / %v", pc.Name, gotC, gotS, wantC, wantS)
-			}
-			have := map[string]bool{}
-			for _, v := range pc.Versions {
-				have[v] = true
-			}
-			known := goplsKnown
-			older := func(v string) bool { return smallest != "" && semver.Compare(v, smallest) < 0 }
-			if strings.HasPrefix(pc.Name, "cmd/") {
-				known = goKnown
-				older = func(v string) bool { return smallest != "" && version.Compare(v, smallest) < 0 }
-			}
-			for _, v := range known {
-				if !older(v) && !have[v] {
-					fail("known-version-missing", "program %s: known version %s is not older than the smallest minimum %q but is not listed (versions %v)", pc.Name, v, smallest, pc.Versions)
-				}
-				if older(v) && have[v] {
-					fail("older-version-listed", "program %s: version %s is older than the smallest minimum %q but is listed", pc.Name, v, smallest)
-				}
-			}
+			res.Class(fmt.Sprintf("c/programs=%d/records=%d/shared=%v", len(byProg), len(list), shared))
 		}
-		res.Class(fmt.Sprintf("c/programs=%d/records=%d", len(byProg), len(list)))
 	}
 	// (d) padVersions
 	pool := []string{"v0", "v0.1.0", "v1.0.0", "v1.2", "v1.2.3", "v1.2.4-pre.1", "v1.3.0-pre.2", "v2.0.0", "v1.2.3+meta", "v0.14.1-pre.1", "v99999999999999999999.0.0", "v1.9223372036854775807.0"}
@@ -233,4 +250,16 @@ func TestVerifC17Gen(t *testing.T) {
 	res.States = res.Evaluations
 	res.Validated = res.Evaluations
 	res.Write()
+}
+
+func zzvUniq(l []string) []string {
+	var out []string
+	seen := map[string]bool{}
+	for _, x := range l {
+		if !seen[x] {
+			seen[x] = true
+			out = append(out, x)
+		}
+	}
+	return out
 }
